@@ -21,12 +21,14 @@ LEVEL = "other"
 MANIFEST = {
     "text": "decides, in every analysed configuration (5 back ends x share triples incl. key < max, library and "
             "both tools): constant subscripts and constant-extent block operations stay inside their array / "
-            "member, guard-bounded variable subscripts stay below the bound, string-length subtractions feeding a "
-            "length are guarded, shift amounts are below the width, a constant-extent access fits the "
-            "guard-bounded remaining length (D6), the bytes a callee always accesses through a pointer parameter "
-            "fit the object passed at each call site (D7), and no size_t length is masked with a zero-extended "
-            "32-bit constant (D8); general memory safety for arbitrary caller-provided buffer/length combinations "
-            "is not decided",
+            "member, guard-bounded variable subscripts stay below the bound (an alarm only when the bound is "
+            "attained through a guard or an I/O contract on the index itself), string-length subtractions feeding "
+            "a length are guarded, shift amounts are below the width, D6 a constant-extent access fits the "
+            "guard-bounded remaining length, D7 the bytes a callee always accesses through a pointer parameter "
+            "fit the object passed at each call site, D8 no size_t length is masked with a zero-extended 32-bit "
+            "constant or narrowed without a bound before it is used for control or addressing, D9 caller-supplied "
+            "byte buffers are accessed without alignment assumptions; general memory safety for arbitrary "
+            "caller-provided buffer/length combinations is not decided",
     "note": "trusted: clang lowering, irdump GEP/type facts; the interval analysis is a sound "
             "over-approximation, so a reported index range is reachable along CFG paths (path feasibility is "
             "not checked beyond the guards)",
